@@ -294,6 +294,70 @@ def _exact_unsat(ctx, neg):
         return False
 
 
+# --------------------------------------------------------------------------- second solver (cvc5) on sampled obligations
+XCHECK_EVERY = int(os.environ.get("SYMX_XCHECK", "0") or 0)      # every k-th obligation that z3 answered 'unsat' (per worker); 0 = off
+XCHECK_TLIMIT_MS = int(os.environ.get("SYMX_XCHECK_TLIMIT_MS", "10000"))
+
+
+def _xc(ctx):
+    d = getattr(ctx, "xc", None)
+    if d is None:
+        d = ctx.xc = {"seen": 0, "n": 0, "agree": 0, "unknown": 0, "disagree": 0, "t": 0.0, "disagreements": []}
+    return d
+
+
+def cvc5_check_smt2(txt, tlimit_ms):
+    import cvc5
+    slv = cvc5.Solver()
+    slv.setOption("tlimit-per", str(tlimit_ms))
+    slv.setLogic("ALL")
+    sm = cvc5.SymbolManager(slv)
+    p = cvc5.InputParser(slv, sm)
+    p.setStringInput(cvc5.InputLanguage.SMT_LIB_2_6, txt, "obligation")
+    res = None
+    while True:
+        c = p.nextCommand()
+        if c.isNull():
+            break
+        out = c.invoke(slv, sm)
+        if c.getCommandName() == "check-sat":
+            res = str(out).strip()
+    return res
+
+
+def cross_check(ctx, label, neg):
+    """The query z3 just answered 'unsat' (path condition + axioms + negated clause) is exported as SMT-LIB2 and decided again by
+    cvc5. Returns 'agree' | 'unknown' | 'disagree' | None (not sampled / cvc5 missing)."""
+    if XCHECK_EVERY <= 0:
+        return None
+    d = _xc(ctx)
+    d["seen"] += 1
+    if d["seen"] % XCHECK_EVERY:
+        return None
+    t = time.time()
+    try:
+        s2 = z3.Solver()
+        s2.add(ctx.s.assertions())
+        s2.add(neg)
+        r = cvc5_check_smt2(s2.to_smt2(), XCHECK_TLIMIT_MS)
+    except ImportError:
+        return None
+    except Exception as e:       # parse problem / resource limit: inconclusive for the second solver, never silently 'agree'
+        r = "error:" + type(e).__name__
+    d["t"] += time.time() - t
+    d["n"] += 1
+    if r == "unsat":
+        d["agree"] += 1
+        return "agree"
+    if r == "sat":
+        d["disagree"] += 1
+        if len(d["disagreements"]) < 5:
+            d["disagreements"].append(label)
+        return "disagree"
+    d["unknown"] += 1
+    return "unknown"
+
+
 def prove_with_refinement(ctx, label, cond):
     """Ctx.prove + function-level replay + CEGAR on the abstractions. Returns verdict string."""
     if ctx.want is not None:
@@ -313,6 +377,10 @@ def prove_with_refinement(ctx, label, cond):
     while True:
         r = ctx.check(neg)
         if r == z3.unsat:
+            if cross_check(ctx, label, neg) == "disagree":
+                # the two solvers disagree on the same SMT-LIB2 text: neither verdict is believed
+                ctx.obls.append((label, "unknown", None, None))
+                return False
             ctx.obls.append((label, "unsat" if rounds == 0 else "unsat-refined", None, None))
             return True
         if r == z3.unknown:
@@ -541,6 +609,12 @@ def run_chunk(task):
     ctx.fresh_checks = bool(task[7]) if len(task) > 7 else False
     ctx.want = WANT[0]
     q0, t0s, u0 = ctx.nq, ctx.tsolve, ctx.unknown
+    x0 = dict(_xc(ctx)); x0["disagreements"] = list(x0["disagreements"])
+    def xdelta():
+        x1 = _xc(ctx)
+        d = {k: x1[k] - x0[k] for k in ("n", "agree", "unknown", "disagree", "t")}
+        d["disagreements"] = x1["disagreements"][len(x0["disagreements"]):]
+        return d
     t0 = time.time()
     work = list(prefixes)
     out = []
@@ -552,9 +626,9 @@ def run_chunk(task):
             out.append(r)
     except BaseException as e:  # engine failure: report, never swallow
         return {"hname": hname, "cfgkey": cfgkey, "error": f"{type(e).__name__}: {e}\n{traceback.format_exc()[-1500:]}",
-                "results": out, "leftover": work, "nq": ctx.nq - q0, "tsolve": ctx.tsolve - t0s, "unknown": ctx.unknown - u0}
+                "results": out, "leftover": work, "nq": ctx.nq - q0, "tsolve": ctx.tsolve - t0s, "unknown": ctx.unknown - u0, "xc": xdelta()}
     return {"hname": hname, "cfgkey": cfgkey, "results": out, "leftover": work,
-            "nq": ctx.nq - q0, "tsolve": ctx.tsolve - t0s, "unknown": ctx.unknown - u0}
+            "nq": ctx.nq - q0, "tsolve": ctx.tsolve - t0s, "unknown": ctx.unknown - u0, "xc": xdelta()}
 
 
 # --------------------------------------------------------------------------- aggregate
@@ -575,9 +649,15 @@ class Agg:
         self.errors = []
         self.samples = []
         self.truncated = 0
+        self.xc = {"n": 0, "agree": 0, "unknown": 0, "disagree": 0, "t": 0.0, "disagreements": []}
 
     def add_chunk(self, ch):
         self.nq += ch["nq"]; self.tsolve += ch["tsolve"]; self.unknown += ch["unknown"]
+        x = ch.get("xc")
+        if x:
+            for k in ("n", "agree", "unknown", "disagree", "t"):
+                self.xc[k] += x[k]
+            self.xc["disagreements"] = (self.xc["disagreements"] + x["disagreements"])[:5]
         if ch.get("error"):
             self.errors.append(ch["error"])
         for r in ch["results"]:
